@@ -71,6 +71,8 @@ CALLS += [
     ("nd/argmax", "F.argmax(x, axis=1)"), ("nd/argmin", "F.argmin(y)"), ("nd/less", "F.less(y, 0.0)"), ("nd/shape", "F.shape(x)"),
     ("ufunc-on-tensor/np.exp", "np.exp(x)"), ("ufunc-on-tensor/np.add", "np.add(x, y)"), ("func-on-tensor/np.sum", "np.sum(x, axis=0)"),
     ("func-on-tensor/np.reshape", "np.reshape(x, (3, 2))"), ("func-on-tensor/np.concatenate", "np.concatenate([x, z])"),
+    ("add/out=view-of-noncontig", "F.add(F.ravel(x), 1.5, out=xt.T.reshape(-1))"), ("exp/out=view-of-noncontig+where", "F.exp(F.ravel(z), out=F.reshape(F.transpose(xt), (-1,)), where=M.reshape(-1))"),
+    ("multiply/out=noncontig", "F.multiply(z.T, 2.0, out=xt)"), ("subtract/out=strided-view", "F.subtract(y, 1.0, out=xt.T[1, ::-1])"),
     ("func-on-tensor/np.einsum", "np.einsum('ij->j', x)"), ("func-on-tensor/np.where", "np.where(M, x, z)"), ("func-on-tensor/np.clip", "np.clip(y, -1, 1)"),
 ]
 ASSUME = {"log": "gt", "log2": "gt", "log10": "gt", "log1p": "gt", "sqrt": "gt", "arccosh": "gt1", "power": "gt", "reciprocal": "ne", "divide": "ne",
